@@ -27,7 +27,7 @@
    hypothesis is necessary.  The *_by_game corollaries spell the configuration out per game. *)
 From Coq Require Import List NArith ZArith Bool Arith Lia ZifyBool ZifyNat ZifyN.
 From Mila Require Import Lib.Bytes Lib.Machine Model.Localize Model.LayeredFS Model.FsTyped
-  Proofs.LayeredFSBase Proofs.LayeredFSStack Proofs.LayeredFSCodec.
+  Proofs.LayeredFSBase Proofs.LayeredFSStack Proofs.LayeredFSWf Proofs.LayeredFSCodec.
 From Mila Require Import Model.BinArchive Model.BinFormat Model.TextMap Model.TexCommon.
 From Mila Require Model.LZ10 Model.LZ11 Model.LZDecode Model.TextFormat Model.Arc Model.Pack Model.PackFormat Model.TexFormat
   Model.Ctpk Model.Bch Model.Cgfx Model.Tpl.
@@ -580,6 +580,175 @@ Proof.
   destruct E as [<- <-]. exact Hp.
 Qed.
 
+(* ------------------------------------------------------------------ histories of typed calls *)
+Theorem typed_step_lower_untouched mc md S o :
+  let S' := fst (typed_step mc md S o) in
+  conf S' = conf S /\ lng S' = lng S /\ length (layers S') = length (layers S) /\ removelast (layers S') = removelast (layers S).
+Proof.
+  destruct o; cbn [typed_step fst]; try (repeat split; reflexivity).
+  - destruct (write_file mc S p b loc) as [S' r] eqn:E. cbn [fst]. exact (write_lower_untouched (lz_compress mc) S p b loc S' r E).
+  - destruct (write_archive mc S p a loc) as [S' r] eqn:E. cbn [fst]. exact (write_archive_lower_untouched mc S p a loc S' r E).
+  - destruct (write_text_archive mc S p a loc) as [S' r] eqn:E. cbn [fst]. exact (write_text_archive_lower_untouched mc S p a loc S' r E).
+Qed.
+
+Theorem typed_run_lower_untouched mc md os : forall S,
+  let S' := typed_run mc md S os in
+  conf S' = conf S /\ lng S' = lng S /\ length (layers S') = length (layers S) /\ removelast (layers S') = removelast (layers S).
+Proof.
+  induction os as [|o r IH]; intros S; cbn [typed_run]; [repeat split; reflexivity|].
+  destruct (IH (fst (typed_step mc md S o))) as (A1 & A2 & A3 & A4).
+  destruct (typed_step_lower_untouched mc md S o) as (B1 & B2 & B3 & B4).
+  cbv zeta. rewrite A1, A2, A3, A4. auto.
+Qed.
+
+Theorem typed_step_wf mc md S o : wf_fs S -> wf_fs (fst (typed_step mc md S o)).
+Proof.
+  intros W. destruct o; cbn [typed_step fst]; try exact W.
+  - destruct (write_file mc S p b loc) as [S' r] eqn:E. cbn [fst]. exact (fs_write_wf (lz_compress mc) S p b loc S' r W E).
+  - destruct (typed_helpers_unfold mc md S p loc) as (_ & _ & _ & _ & _ & _ & _ & _ & UW & _). rewrite UW.
+    destruct (BinFormat.serialize mc a) as [f|e|k]; cbn [fst]; try exact W.
+    destruct (write_file mc S p f loc) as [S' r] eqn:E. cbn [fst]. exact (fs_write_wf (lz_compress mc) S p f loc S' r W E).
+  - destruct (typed_helpers_unfold mc md S p loc) as (_ & _ & _ & _ & _ & _ & _ & _ & _ & UW). rewrite UW.
+    destruct (TextFormat.serialize mc (ta_fmt a) (ta_endian a) (ta_map a)) as [f|e|k]; cbn [fst]; try exact W.
+    destruct (write_file mc S p f loc) as [S' r] eqn:E. cbn [fst]. exact (fs_write_wf (lz_compress mc) S p f loc S' r W E).
+Qed.
+Theorem typed_run_wf mc md os : forall S, wf_fs S -> wf_fs (typed_run mc md S os).
+Proof. induction os as [|o r IH]; intros S W; cbn [typed_run]; [exact W|]. apply IH, typed_step_wf, W. Qed.
+
+(* ------------------------------------------------------------------ frame: a write addressed elsewhere does not disturb a read *)
+Lemma search_top_snoc P rest x :
+  search_top P (rest ++ [x]) = if P x then Some (length rest, x) else search_top P rest.
+Proof.
+  induction rest as [|y rest IH]; cbn [app search_top length].
+  - destruct (P x); reflexivity.
+  - rewrite IH. destruct (P x); [reflexivity|]. reflexivity.
+Qed.
+
+Lemma l_write_frame L qq tr c L' ok pp : l_write L (qq, tr) c = (L', ok) -> pp <> qq ->
+  l_get L' pp = l_get L pp \/ (l_get L pp = None /\ l_get L' pp = Some Dir).
+Proof.
+  unfold l_write. destruct (blocked L (proper_prefixes qq)); [intros H _; inversion H; left; reflexivity|].
+  assert (M : l_get (mkdirs L (proper_prefixes qq)) pp = l_get L pp \/
+              (l_get L pp = None /\ l_get (mkdirs L (proper_prefixes qq)) pp = Some Dir)).
+  { rewrite l_get_mkdirs. destruct (l_get L pp) as [e|]; [left; reflexivity|].
+    destruct (inb pp (proper_prefixes qq)); [right; split; reflexivity | left; reflexivity]. }
+  destruct tr; [intros H _; inversion H; subst; exact M|].
+  destruct (l_get (mkdirs L (proper_prefixes qq)) qq) as [[b|]|]; intros H Hne; inversion H; subst; try exact M;
+    rewrite l_get_set_other by exact Hne; exact M.
+Qed.
+
+Lemma l_write_frame_read L qq tr c L' ok a : l_write L (qq, tr) c = (L', ok) -> fst a <> qq ->
+  l_is_file L' a = l_is_file L a /\ l_read L' a = l_read L a.
+Proof.
+  intros H Hne. unfold l_is_file, l_read. destruct (l_write_frame L qq tr c L' ok (fst a) H Hne) as [E|[E1 E2]].
+  - rewrite E. split; reflexivity.
+  - rewrite E1, E2. split; reflexivity.
+Qed.
+
+Section Frame.
+  Variable compress decompress : cfmt -> bytes -> outcome bytes.
+
+  Theorem write_frame_read S q b locq S' r p loc s a :
+    fs_write compress S q b locq = (S', r) ->
+    fs_addr S p loc = FOk (s, a) ->
+    (forall s' qq trq, fs_addr S q locq = FOk (s', (qq, trq)) -> qq <> fst a) ->
+    fs_read decompress S' p loc = fs_read decompress S p loc.
+  Proof.
+    intros H A Hne. apply fs_write_cases in H.
+    destruct H as [(-> & _)|(s' & qq & trq & c & top & rest & top' & ok & A' & En & Ly & W & -> & _)]; [reflexivity|].
+    assert (A2 : fs_addr (mkFs (rest ++ [top']) (conf S) (lng S)) p loc = FOk (s, a))
+      by (rewrite (fs_addr_state S (mkFs (rest ++ [top']) (conf S) (lng S)) p loc eq_refl eq_refl); exact A).
+    rewrite (fs_read_spec decompress _ p loc s a A2), (fs_read_spec decompress S p loc s a A).
+    cbn [layers]. rewrite Ly, !search_top_snoc.
+    assert (Hq : fst a <> qq) by (intros E; exact (Hne s' qq trq A' (eq_sym E))).
+    destruct (l_write_frame_read top qq trq c top' ok a W Hq) as [E1 E2]. rewrite E1.
+    unfold decode_by_name. cbn [conf]. destruct (l_is_file top a); [rewrite E2; reflexivity | reflexivity].
+  Qed.
+End Frame.
+
+(* a call that does not write to the location pp; the address of a write is judged in S - configuration and language, which
+   determine it, never change along a history *)
+Definition writes_elsewhere (S : fsys) (pp : path) (o : tcall) : Prop :=
+  match o with
+  | TWrite q _ l | TWriteArchive q _ l | TWriteText q _ l => forall s qq tr, fs_addr S q l = FOk (s, (qq, tr)) -> qq <> pp
+  | _ => True
+  end.
+
+Lemma writes_elsewhere_state S S' pp o : conf S' = conf S -> lng S' = lng S -> writes_elsewhere S pp o -> writes_elsewhere S' pp o.
+Proof.
+  intros C G. destruct o; cbn [writes_elsewhere]; try exact (fun H => H);
+    intros H s qq tr A; rewrite (fs_addr_state S S' _ _ C G) in A; exact (H s qq tr A).
+Qed.
+
+Theorem typed_step_keeps_read mc md md' S o p loc s a :
+  fs_addr S p loc = FOk (s, a) -> writes_elsewhere S (fst a) o ->
+  read_file md' (fst (typed_step mc md S o)) p loc = read_file md' S p loc.
+Proof.
+  intros A E. destruct o; cbn [typed_step fst]; try reflexivity; cbn [writes_elsewhere] in E.
+  - destruct (write_file mc S p0 b loc0) as [S' r] eqn:W. cbn [fst].
+    exact (write_frame_read (lz_compress mc) (lz_decompress md') S p0 b loc0 S' r p loc s a W A E).
+  - destruct (typed_helpers_unfold mc md S p0 loc0) as (_ & _ & _ & _ & _ & _ & _ & _ & UW & _). rewrite UW.
+    destruct (BinFormat.serialize mc a0) as [f|e|k]; cbn [fst]; try reflexivity.
+    destruct (write_file mc S p0 f loc0) as [S' r] eqn:W. cbn [fst].
+    exact (write_frame_read (lz_compress mc) (lz_decompress md') S p0 f loc0 S' r p loc s a W A E).
+  - destruct (typed_helpers_unfold mc md S p0 loc0) as (_ & _ & _ & _ & _ & _ & _ & _ & _ & UW). rewrite UW.
+    destruct (TextFormat.serialize mc (ta_fmt a0) (ta_endian a0) (ta_map a0)) as [f|e|k]; cbn [fst]; try reflexivity.
+    destruct (write_file mc S p0 f loc0) as [S' r] eqn:W. cbn [fst].
+    exact (write_frame_read (lz_compress mc) (lz_decompress md') S p0 f loc0 S' r p loc s a W A E).
+Qed.
+
+(* along any history of typed and byte-level calls none of which writes to the location p addresses, what p reads stays *)
+Theorem typed_run_keeps_read mc md md' os : forall S p loc s a,
+  fs_addr S p loc = FOk (s, a) -> Forall (writes_elsewhere S (fst a)) os ->
+  read_file md' (typed_run mc md S os) p loc = read_file md' S p loc.
+Proof.
+  induction os as [|o r IH]; intros S p loc s a A F; cbn [typed_run]; [reflexivity|].
+  inversion F as [|? ? Ho Hr]; subst.
+  destruct (typed_step_lower_untouched mc md S o) as (C & G & _).
+  rewrite (IH (fst (typed_step mc md S o)) p loc s a).
+  - exact (typed_step_keeps_read mc md md' S o p loc s a A Ho).
+  - rewrite (fs_addr_state S _ p loc C G). exact A.
+  - eapply Forall_impl; [|exact Hr]. intros o'. apply writes_elsewhere_state; assumption.
+Qed.
+
+(* ... hence every typed reader returns the same value *)
+Theorem typed_run_keeps_typed_reads mc md md' os S p loc s a :
+  fs_addr S p loc = FOk (s, a) -> Forall (writes_elsewhere S (fst a)) os ->
+  let S' := typed_run mc md S os in
+  read_file md' S' p loc = read_file md' S p loc /\
+  read_archive md' S' p loc = read_archive md' S p loc /\
+  read_text_archive md' S' p loc = read_text_archive md' S p loc /\
+  read_arc md' S' p loc = read_arc md' S p loc /\
+  read_fe9_arc md' S' p loc = read_fe9_arc md' S p loc /\
+  (forall k, read_textures md' k S' p loc = read_textures md' k S p loc).
+Proof.
+  intros A F S'. pose proof (typed_run_keeps_read mc md md' os S p loc s a A F) as R. fold S' in R.
+  destruct (typed_run_lower_untouched mc md os S) as (C & _). fold S' in C.
+  split; [exact R|].
+  unfold read_archive, read_text_archive, read_arc, read_fe9_arc, read_textures,
+    fs_read_archive, fs_read_text_archive, fs_read_arc, fs_read_fe9_arc, fs_read_textures.
+  unfold read_file in R. rewrite R, C. repeat split.
+Qed.
+
+(* read-after-write through a history: write_archive, then ANY calls that do not write to the same location (writes to other
+   paths, typed or not, succeeding or failing, and reads), then read_archive: the archive of C01's round trip *)
+Theorem e2e_archive_round_trip_history mc md S p loc a S1 os :
+  wf_archive a -> ser_bound a < 2 ^ 24 -> a_endian a = c_endian (conf S) ->
+  write_archive mc S p a loc = (S1, FOk tt) ->
+  (forall s pp tr, fs_addr S p loc = FOk (s, (pp, tr)) -> Forall (writes_elsewhere S pp) os) ->
+  exists a', read_archive md (typed_run mc md S1 os) p loc = FOk a' /\ same_archive a a'.
+Proof.
+  intros WF B He H F.
+  destruct (e2e_archive_round_trip mc md S p loc a S1 WF B He H) as (f & a' & Hs & Hw & _ & Ra & R).
+  destruct (write_ok_top (lz_compress mc) S p f loc S1 Hw) as (s & pp & c & A & _).
+  destruct (write_archive_lower_untouched mc S p a loc S1 (FOk tt) H) as (C & G & _).
+  assert (A1 : fs_addr S1 p loc = FOk (s, (pp, false))) by (rewrite (fs_addr_state S S1 p loc C G); exact A).
+  assert (F1 : Forall (writes_elsewhere S1 pp) os).
+  { eapply Forall_impl; [|exact (F s pp false A)]. intros o. apply writes_elsewhere_state; assumption. }
+  destruct (typed_run_keeps_typed_reads mc md md os S1 p loc s (pp, false) A1 F1) as (_ & K & _).
+  exists a'. rewrite K. split; [exact Ra | exact R].
+Qed.
+
 (* ------------------------------------------------------------------ non-vacuity *)
 (* FE10 (big-endian, LZ10): the mixed archive of C01's domain example (string, pending c-string, pointer, two labels,
    unaligned data) written to "a.cmp" and read back by the other build profile *)
@@ -701,4 +870,30 @@ Proof.
   split; [apply TexCtpk.conforms_ctpkb_sound; vm_compute; reflexivity|].
   split; [constructor; [|constructor]; split; [left; repeat split; reflexivity|]; split; reflexivity|].
   vm_compute. split; reflexivity.
+Qed.
+
+(* a history: write_archive to "a.cmp", then a byte-level write to "b.bin", a typed write to "d/c.cmp", a FAILING write through
+   the file "b.bin" and some reads - none of them writes to the location of "a.cmp" - then read_archive of "a.cmp" *)
+Definition ex_history : list tcall :=
+  [TWrite [98; 46; 98; 105; 110] [1; 2] false;
+   TWriteArchive [100; 47; 99; 46; 99; 109; 112] ex_archive false;
+   TWrite [98; 46; 98; 105; 110; 47; 120] [3] false;
+   TReadArchive [100; 47; 99; 46; 99; 109; 112] false;
+   TRead ex_cmp false].
+Example e2e_example_history_hyp :
+  forall s pp tr, fs_addr ex_fe10 ex_cmp false = FOk (s, (pp, tr)) -> Forall (writes_elsewhere ex_fe10 pp) ex_history.
+Proof.
+  intros s pp tr A. vm_compute in A. injection A as _ <- _.
+  repeat constructor; cbn [writes_elsewhere]; intros s' qq tr' A'; vm_compute in A'; injection A' as _ <- _; discriminate.
+Qed.
+Example e2e_example_history :
+  let '(S1, r) := write_archive Checked ex_fe10 ex_cmp ex_archive false in
+  r = FOk tt /\
+  exists a', read_archive Wrapping (typed_run Checked Wrapping S1 ex_history) ex_cmp false = FOk a' /\ same_archive ex_archive a'.
+Proof.
+  destruct (write_archive Checked ex_fe10 ex_cmp ex_archive false) as [S1 r] eqn:E.
+  assert (Hr : r = FOk tt) by (apply (f_equal snd) in E; vm_compute in E; symmetry; exact E).
+  subst r. split; [reflexivity|].
+  destruct e2e_example_archive_hyp as (_ & WF & B & He).
+  exact (e2e_archive_round_trip_history Checked Wrapping ex_fe10 ex_cmp false ex_archive S1 ex_history WF B He E e2e_example_history_hyp).
 Qed.
